@@ -1943,10 +1943,13 @@ impl ResolveReport<'_> {
 
         // If we have duplicate suggestions in the output, e.g. due to multiple
         // versions of the same crate requiring the same new audit, deduplicate
-        // them in the output to avoid clutter.
+        // them in the output to avoid clutter. Suggestions for different
+        // criteria are not duplicates: each one is needed.
         suggestions.dedup_by(|a, b| {
             if self.graph.nodes[a.package].name == self.graph.nodes[b.package].name
                 && a.suggested_diff == b.suggested_diff
+                && a.suggested_criteria.contains(&b.suggested_criteria)
+                && b.suggested_criteria.contains(&a.suggested_criteria)
             {
                 // Per the `dedup_by` documentation, if true is returned, `a`
                 // will be removed. Preserve its notable parents.
